@@ -3,12 +3,17 @@ C07 — Suite expansion selects, names and populates permutations per suite dire
 Property theorems only; helper lemmas live in `ConfModel.Lemmas.Library`.
 All statements hold for every list of suites (any directives, any number of tests), every set of
 config cases (given as a list `cases`; the code only asks membership) and every run mode.
-`join` stands for Go's `path.Join`; the only thing assumed of it is that it ignores an empty
-element (`hj`), which `pathJoin_ignores_empty` proves of the model of `path.Join` the driver runs.
+`join` stands for Go's `path.Join`; the only thing the expansion theorems assume of it is that it
+ignores an empty element (`hj`), which `pathJoin_ignores_empty` proves of the model of `path.Join`
+the driver runs.  The theorems about what names identify (`full_name_segments`, `names_injective`,
+`names_distinct_of_clean`, `duplicate_error_genuine`) are about that model, `pathJoin`, itself
+(split at '/', the component loop of `path.Clean`, join — compared with the real `path.Join` by the
+`join` operation of the correspondence run).
 -/
 import ConfModel.Lemmas.Library
 import ConfModel.Lemmas.LibraryAccept
 import ConfModel.Lemmas.LibraryNames
+import ConfModel.Generated.C07Facts
 namespace ConfModel.Props.C07
 open ConfModel.Config ConfModel.Library
 
@@ -147,16 +152,25 @@ theorem duplicate_error_genuine (suites : List Suite) (cases : List Case) (mode 
     exact hex ⟨s, hs, c, by simpa [inSet] using hc2, (admits_iff s mode c).2 ⟨hadm, hc1⟩, hext, hnr⟩
   · exact Or.inl hd
 
+/-- the receive limit of the model is the constant `clientReceiveLimit` of the working tree
+(`Generated/C07Facts.lean` is regenerated from the tree on every run) -/
+theorem receive_limit_fact : Generated.C07Facts.clientReceiveLimit = clientReceiveLimit := by decide
+
 /-- The request carries the case's version, protocol, codec and compression; the server
 certificate placeholder iff the case uses TLS, client credentials iff it uses client certificates
-(with TLS); the given service and method, or the default service and the stream type's default
-method when both are omitted; and the case is one of the given config cases. -/
+(with TLS), both as the literal placeholder texts and nothing else; the given service and method,
+or the default service and the stream type's default method when both are omitted; the receive
+limit the runner always sets; and the case is one of the given config cases. -/
 theorem request_populated (join : List String → String) (hj : ∀ l, join ("" :: l) = join l)
     (suites : List Suite) (cases : List Case) (mode : Mode) (lib : List Perm)
     (h : newLibrary join suites (inSet cases) mode = .ok lib) (q : Perm) (hq : q ∈ lib) :
     q.case ∈ cases ∧ q.v = q.case.v ∧ q.p = q.case.p ∧ q.c = q.case.c ∧ q.z = q.case.z ∧
     q.st = q.test.st ∧ q.st = q.case.s ∧
     q.serverCert = q.case.tls ∧ q.clientCreds = (q.case.tls && q.case.certs) ∧
+    q.certText = (if q.case.tls then placeholder else "") ∧
+    q.credsText = (if q.case.tls ∧ q.case.certs then placeholder ++ "|" ++ placeholder else "") ∧
+    (q.serverCert = true ↔ q.certText ≠ "") ∧ (q.clientCreds = true ↔ q.credsText ≠ "") ∧
+    q.recvLimit = clientReceiveLimit ∧
     (q.test.service = "" ∧ q.test.method = "" →
       q.service = serviceName ∧ q.method = defaultMethod q.case.s) ∧
     (q.test.service ≠ "" → q.service = q.test.service ∧ q.method = q.test.method ∧ q.test.method ≠ "") := by
@@ -166,7 +180,11 @@ theorem request_populated (join : List String → String) (hj : ∀ l, join ("" 
   obtain ⟨s, hs, c, hc, ha, t, ht, hst, rfl⟩ := hq
   obtain ⟨hm, hc1⟩ := (admits_iff s mode c).1 ha
   have hok := ((e s hs hm).2 c hc1 (by simpa [inSet] using hc) t ht).2.2 hst
-  refine ⟨hc, rfl, rfl, rfl, rfl, rfl, hst, rfl, rfl, ?_, ?_⟩
+  refine ⟨hc, rfl, rfl, rfl, rfl, rfl, hst, rfl, rfl, rfl, rfl, ?_, ?_, rfl, ?_, ?_⟩
+  · simp only [specPerm]
+    cases c.tls <;> simp [placeholder]
+  · simp only [specPerm]
+    cases c.tls <;> cases c.certs <;> simp [placeholder]
   · intro hx; simp only [specPerm] at hx ⊢; simp [hx, hst]
   · intro hx
     simp only [specPerm] at hx ⊢
